@@ -225,7 +225,9 @@ def rule_boundary(spec, tr):
     for st in ctl_h.states_of(tr):
         for rl in spec['rules']:
             o = ctl_h.rule_oracle(rl, st, tr)
-            if o[0] == 'skip':
+            # (only decisions within rounding of a threshold excuse a difference between two unit systems; a state in
+            # which the rule's own arithmetic fails is the same state in both)
+            if o[0] == 'skip' and 'within rounding' in o[1]:
                 return o[1]
     return None
 
@@ -245,6 +247,14 @@ def run_C07(ctx):
         elif r < 0.55:
             spec['rules'] = ctl_h.gen_rules(rng, spec, total * dt, len(spec['elems']) + 1)
             spec['load']['coef'] = [abs(spec['load']['coef'][0]), 0.0, 0.0, 0.0, 0.0]
+            if rng.random() < 0.3:
+                # an assisting load (the rules' static error is then negative — whatever the code does with it, it does the
+                # same in every unit system)
+                spec['load']['coef'][0] = -spec['load']['coef'][0]
+                # one braking rule that is applicable from the start (target within the braking angle of the initial position)
+                spec['rules'] = [{'type': 'reach', 'enc': len(spec['elems']),
+                                  'target': gen.in_unit(rng, 'AngularPosition', sim.si('AngularPosition', *spec['init']['pos'][:2]) + rng.uniform(0.1, 1.0), True),
+                                  'brake': gen.in_unit(rng, 'Angle', rng.uniform(2, 6), True)}]
         ops = []
         op, _, _ = gen.run_op(rng, dt_si=dt, steps=(total, total))
         if rng.random() < 0.3:
